@@ -12,6 +12,7 @@ package nodenumaresource
 
 import (
 	"fmt"
+	"math/bits"
 	"os"
 	"regexp"
 	"testing"
@@ -23,6 +24,7 @@ import (
 	schedulingconfig "github.com/koordinator-sh/koordinator/pkg/scheduler/apis/config"
 	"github.com/koordinator-sh/koordinator/pkg/scheduler/frameworkext/topologymanager"
 	"github.com/koordinator-sh/koordinator/pkg/util/bitmask"
+	"github.com/koordinator-sh/koordinator/pkg/util/cpuset"
 	"github.com/koordinator-sh/koordinator/pkg/zzverif/mc"
 )
 
@@ -36,6 +38,7 @@ type c06NumaKind struct {
 	FullPCPUs bool
 	WithMem   bool // additionally request memory (free vector reversed) in the same call: no cross-talk between resources
 	ViaRM     bool // through resourceManager.Allocate on a ledger with a committed occupant
+	CPUSet    bool // (ViaRM) on a real topology of N NUMA nodes x 4 cores x 2 threads whose CPUs are all free while a CPU-share occupant holds NUMA-level amounts: the CPU set built along the per-node shares is judged too
 }
 
 type c06NumaCase struct {
@@ -91,6 +94,10 @@ func TestVerifC06Numa(t *testing.T) {
 		{Name: "shared-cpu+memory-via-Allocate", Divisible: true, Unit: 1000, Step: 1000, WithMem: true, ViaRM: true},
 		{Name: "bound-cpu", Divisible: false, Unit: 1000, Step: 1000, CPUBind: true},
 		{Name: "bound-cpu-FullPCPUs-required", Divisible: false, Unit: 1000, Step: 1000, CPUBind: true, FullPCPUs: true},
+		// the CPU set taken along the per-node shares of the hint (allocateCPUSet's hint branch; needs >= 3 hinted nodes with
+		// odd-capped shares to end in split cores: seed C06-5)
+		{Name: "bound-cpu-set-via-Allocate", Divisible: false, Unit: 1000, Step: 1000, CPUBind: true, ViaRM: true, CPUSet: true},
+		{Name: "bound-cpu-set-FullPCPUs-required-via-Allocate", Divisible: false, Unit: 1000, Step: 1000, CPUBind: true, FullPCPUs: true, ViaRM: true, CPUSet: true},
 	}
 	alphabet := []int64{0, 1, 2, 3, 5, 8}
 	smt := c06NewLayout(1, 1, 2, 2, false).topology() // only CPUsPerCore()==2 is read from it by splitQuantity
@@ -191,7 +198,30 @@ func TestVerifC06Numa(t *testing.T) {
 					var got []NUMANodeResource
 					var reasons []string
 					var ps string
-					if kind.ViaRM {
+					var gotSet *cpuset.CPUSet
+					var lay *c06Layout
+					if kind.CPUSet {
+						lay = c06NewLayout(1, N, 4, 2, false)
+						totals := make([]NUMANodeResource, N)
+						occ := &PodAllocation{UID: types.UID("occ"), Name: "occ", Namespace: "default"}
+						for k := 0; k < N; k++ {
+							totals[k] = NUMANodeResource{Node: k, Resources: corev1.ResourceList{resName: c06Quantity(8*kind.Unit, false)}}
+							occ.NUMANodeResources = append(occ.NUMANodeResources, NUMANodeResource{Node: k, Resources: corev1.ResourceList{resName: c06Quantity(8*kind.Unit-free[k], false)}})
+						}
+						rm, tom := c06NewManager(lay.topology(), 1, 0, totals)
+						rm.Update(c06Node, occ)
+						opts.topologyOptions = tom.GetTopologyOptions(c06Node)
+						ps = mc.Guard(func() {
+							alloc, st := rm.Allocate(c06NodeObj(), c06PodObj("new"), opts)
+							if st.IsSuccess() && alloc != nil {
+								got = alloc.NUMANodeResources
+								cs := alloc.CPUSet
+								gotSet = &cs
+							} else {
+								reasons = append([]string{"status: " + st.Message()}, st.Reasons()...)
+							}
+						})
+					} else if kind.ViaRM {
 						totals := make([]NUMANodeResource, N)
 						occ := &PodAllocation{UID: types.UID("occ"), Name: "occ", Namespace: "default"}
 						for k := 0; k < N; k++ {
@@ -284,6 +314,29 @@ func TestVerifC06Numa(t *testing.T) {
 						return true
 					}
 					good := check(resName, req, free)
+					if good && kind.CPUSet {
+						mask, bad := c06SetToMask(*gotSet, lay.N)
+						switch {
+						case bad != "":
+							good = false
+							res.Violate(mc.Violation{Key: "C06|numa-split|" + kind.Name + "|cpuset-malformed", What: fmt.Sprintf("%s: success with CPU set %s: %s (hint %v free %v request %d)", kind.Name, gotSet.String(), bad, hint, free, req), Replay: mk()})
+						case int64(bits.OnesCount32(mask))*1000 != req:
+							good = false
+							res.Violate(mc.Violation{Key: "C06|numa-split|" + kind.Name + "|cpuset-size-ne-request", What: fmt.Sprintf("%s: success with CPU set %s of %d CPUs for a request of %d milli (hint %v free %v, per-node shares %+v)", kind.Name, gotSet.String(), bits.OnesCount32(mask), req, hint, free, got), Replay: mk()})
+						case kind.FullPCPUs && !lay.fullCores(mask):
+							good = false
+							res.Violate(mc.Violation{Key: "C06|numa-split|" + kind.Name + "|required-FullPCPUs-reported-satisfied-but-not", What: fmt.Sprintf("%s: success with CPU set %s, which splits a physical core of topology %s although the REQUIRED FullPCPUs policy was reported satisfied (hint %v free %v request %d, per-node shares %+v)", kind.Name, gotSet.String(), lay.Name, hint, free, req, got), Replay: mk()})
+						default:
+							if req > 0 {
+								loc.Count("cpu_sets_judged", 1)
+							}
+							for k := 0; k < N; k++ {
+								if hintMask&(1<<uint(k)) == 0 && mask&lay.NodeMask[k] != 0 {
+									loc.Count("cpus_taken_outside_hint(diagnostic)", 1)
+								}
+							}
+						}
+					}
 					if good && kind.WithMem {
 						good = check(corev1.ResourceMemory, memReq, memFree)
 					}
